@@ -31,7 +31,7 @@ GATHER_CLASSES = ["ASTNode", *M.CLASS_NAMES]
 
 
 def st_case(ctx: Ctx):
-    g = T.TreeGen(leaves=ctx.pick(10, 16))
+    g = T.TreeGen(leaves=ctx.pick(10, 16), refs=True)
     masks = st.lists(st.tuples(st.integers(0, 2**40), st.integers(0, 2**40)).map(list), min_size=12, max_size=12)
     gmask = st.lists(st.tuples(st.integers(1, 2 ** len(GATHER_CLASSES) - 1), st.booleans(),
                                st.integers(0, 2**40), st.integers(0, 2**40)).map(list), min_size=3, max_size=3)
@@ -187,6 +187,38 @@ def check_tree(data: dict, lab: Labels) -> None:
                 f"got {[uid_of_live.get(id(g), -1) for g in got]}")
         lab.count("gathers")
     lab.nontrivial = depth >= 3 and nontrivial
+    if data.get("copy"):
+        # a deep copy (objects made without the constructor, same ids as their originals, both alive):
+        # walking the copy yields the copy's own objects
+        import copy
+
+        cp = copy.deepcopy(root)
+        twin_of: dict[int, Any] = {}
+
+        def pair(o: Any, c: Any) -> None:
+            twin_of[id(o)] = c
+            oc, cc = T.live_children(o), T.live_children(c)
+            require(len(oc) == len(cc), "harness-deepcopy-shape", "")
+            for (x, _, _), (y, _, _) in zip(oc, cc):
+                pair(x, y)
+
+        pair(root, cp)
+        require(cp is not root and all(twin_of[id(b.of(e))] is not b.of(e) for e in T.nodes_preorder(root_e)), "harness-deepcopy", "")
+        lab.tag("deep-copied-tree")
+
+        def same(name: str, got: list, exp: list) -> None:
+            require(len(got) == len(exp), name, f"{len(got)} positions, expected {len(exp)}")
+            for g, (c, par, fn, idx) in zip(got, exp):
+                ec, ep = twin_of[id(b.of(c))], twin_of[id(b.of(par))]
+                require(g.node is ec and g.parent is ep and g.field.name == fn and g.findex == idx, name,
+                        f"{fn}[{idx}]: yields an object that is not the copy's own node / parent")
+                v = getattr(g.parent, fn)
+                require((v[idx] is g.node) if idx is not None else (v is g.node), name + "-position-info", (fn, idx))
+
+        same("dfs-on-copy", list(cp.dfs()), allpos)
+        same("dfs-bottom-up-on-copy", list(cp.dfs(bottom_up=True)), post)
+        same("bfs-on-copy", list(cp.bfs()), ref_bfs(root_e, lambda p: False, lambda p: True))
+        _compare("dfs-plain-after-copy", list(root.dfs()), allpos, b, None)
 
 
 def _compare(name: str, got: list, exp: list, b: T.Built, masks: Any) -> None:
@@ -212,7 +244,8 @@ def _compare(name: str, got: list, exp: list, b: T.Built, masks: Any) -> None:
 
 
 def st_case_t(ctx: Ctx):
-    return st_case(ctx).map(lambda d: {**d, "thorough": ctx.thorough})
+    return st.tuples(st_case(ctx), st.sampled_from([False, False, False, True])).map(
+        lambda t: {**t[0], "thorough": ctx.thorough, "copy": t[1]})
 
 
 def enum_deep(ctx: Ctx):
